@@ -138,25 +138,242 @@ def lean_val(v) -> str:
     raise TranslatorError(f"constructor default of unsupported type: {v!r}")
 
 
+def _is_call(node, attr):
+    return isinstance(node, ast.Call) and isinstance(node.func, ast.Attribute) and node.func.attr == attr
+
+
+# ---- constructor programs: symbolic execution of the `__init__` bodies (AST) ---------------------------------------------
+
+def _func_ast(fn):
+    src = textwrap.dedent(inspect.getsource(fn))
+    node = ast.parse(src).body[0]
+    if not isinstance(node, ast.FunctionDef):
+        raise TranslatorError(f"{fn.__qualname__}: not a plain function")
+    return node
+
+
+def _find_method(cls, name):
+    """(defining class, raw attribute, function) of method `name` looked up on `cls` along the MRO"""
+    for k in cls.__mro__:
+        if name in vars(k):
+            raw = vars(k)[name]
+            fn = raw.__func__ if isinstance(raw, (staticmethod, classmethod)) else raw
+            return k, raw, fn
+    raise TranslatorError(f"{cls.__name__}: no method {name}")
+
+
+def _const(node, module):
+    """integer / float / str / bool literal, or a dotted constant evaluated in the defining module"""
+    if isinstance(node, ast.Constant) and isinstance(node.value, (int, float, str, bool)):
+        return node.value
+    if isinstance(node, ast.UnaryOp) and isinstance(node.op, ast.USub) and isinstance(node.operand, ast.Constant) \
+            and isinstance(node.operand.value, (int, float)):
+        return -node.operand.value
+    if isinstance(node, ast.Attribute):
+        try:
+            v = eval(compile(ast.Expression(node), "<c14>", "eval"), vars(module))   # e.g. QMI_Context.DEFAULT_UDP_RESPONDER_PORT
+        except Exception as e:
+            raise TranslatorError(f"cannot evaluate constant {ast.unparse(node)}: {e}")
+        if isinstance(v, (int, float, str, bool)):
+            return v
+    raise TranslatorError(f"not a constant: {ast.unparse(node)}")
+
+
+def _cond_of(test, var: str, module):
+    """The test of `if <test>: raise QMI_TransportDescriptorException` as a model `Cond` on variable `var`."""
+    def is_var(n):
+        return isinstance(n, ast.Name) and n.id == var
+    if isinstance(test, ast.BoolOp) and isinstance(test.op, ast.Or):
+        cs = [_cond_of(v, var, module) for v in test.values]
+        out = cs[0]
+        for c in cs[1:]:
+            out = ("or", out, c)
+        return out
+    if isinstance(test, ast.Compare) and len(test.ops) == 1 and is_var(test.left):
+        op, rhs = test.ops[0], test.comparators[0]
+        if isinstance(op, (ast.Lt, ast.Gt, ast.Eq)):
+            k = _const(rhs, module)
+            if isinstance(k, bool) or not isinstance(k, int):
+                raise TranslatorError(f"comparison with a non-integer constant: {ast.unparse(test)}")
+            return ({ast.Lt: "lt", ast.Gt: "gt", ast.Eq: "eq"}[type(op)], k)
+        if isinstance(op, ast.NotIn) and isinstance(rhs, ast.Tuple):
+            vals = [_const(e, module) for e in rhs.elts]
+            if vals and all(isinstance(v, str) for v in vals):
+                return ("notInStrs", vals)
+            if vals == [True, False] and all(isinstance(v, bool) for v in vals):
+                return ("notBool",)
+            if vals == [1.0, 1.5, 2.0] and all(isinstance(v, float) for v in vals):
+                return ("notStopbits",)          # the model knows the rounding intervals of exactly these three doubles
+            raise TranslatorError(f"membership test not modelled: {ast.unparse(test)}")
+    # not (x.upper().startswith(UP) or x.startswith(PRE))
+    if isinstance(test, ast.UnaryOp) and isinstance(test.op, ast.Not) and isinstance(test.operand, ast.BoolOp) \
+            and isinstance(test.operand.op, ast.Or) and len(test.operand.values) == 2:
+        a, b = test.operand.values
+        if (_is_call(a, "startswith") and _is_call(a.func.value, "upper") and is_var(a.func.value.func.value) and not a.func.value.args
+                and len(a.args) == 1 and _is_call(b, "startswith") and is_var(b.func.value) and len(b.args) == 1):
+            up, pre = _const(a.args[0], module), _const(b.args[0], module)
+            if not (isinstance(up, str) and up.isascii() and up.isalpha() and up == up.upper() and isinstance(pre, str) and pre.isascii() and pre):
+                raise TranslatorError(f"device-name test with unsupported constants: {ast.unparse(test)}")
+            for c in range(128, 0x110000):
+                if not (0xd800 <= c < 0xe000) and any(ch in up for ch in chr(c).upper()):
+                    raise TranslatorError(f"str.upper(): U+{c:04X} upper-cases into a letter of {up!r}; model of the prefix test unsound")
+            return ("notDevice", up, pre)
+    # (not _is_valid_hostname(x)) and (not _is_valid_ipaddress(x))
+    if isinstance(test, ast.BoolOp) and isinstance(test.op, ast.And) and len(test.values) == 2:
+        names = []
+        for v in test.values:
+            if (isinstance(v, ast.UnaryOp) and isinstance(v.op, ast.Not) and isinstance(v.operand, ast.Call)
+                    and isinstance(v.operand.func, ast.Name) and len(v.operand.args) == 1 and is_var(v.operand.args[0])):
+                names.append(v.operand.func.id)
+        if names == ["_is_valid_hostname", "_is_valid_ipaddress"]:
+            return ("badHost",)
+    raise TranslatorError(f"validator test not understood: {ast.unparse(test)}")
+
+
+def _is_descr_raise(stmt) -> bool:
+    return (isinstance(stmt, ast.Raise) and isinstance(stmt.exc, ast.Call) and isinstance(stmt.exc.func, ast.Name)
+            and stmt.exc.func.id == "QMI_TransportDescriptorException")
+
+
+def _validator_prog(owner, name, argvar_expr, depth=0):
+    """Inline `<owner>._validate_x(<param>)`: list of ('validate', param, cond)."""
+    if depth > 4:
+        raise TranslatorError("validator recursion too deep")
+    k, raw, fn = _find_method(owner, name)
+    node = _func_ast(fn)
+    params = [a.arg for a in node.args.args]
+    if not isinstance(raw, staticmethod):
+        params = params[1:]
+    if len(params) != 1:
+        raise TranslatorError(f"{k.__name__}.{name}: expected exactly one value parameter")
+    var = params[0]
+    module = sys.modules[k.__module__]
+    out = []
+    for st in node.body:
+        if isinstance(st, ast.Expr) and isinstance(st.value, ast.Constant):
+            continue                                                   # docstring
+        if (isinstance(st, ast.Expr) and _is_call(st.value, name)
+                and isinstance(st.value.func.value, ast.Call) and isinstance(st.value.func.value.func, ast.Name)
+                and st.value.func.value.func.id == "super" and len(st.value.args) == 1
+                and isinstance(st.value.args[0], ast.Name) and st.value.args[0].id == var):
+            nxt = k.__mro__[1]
+            out += _validator_prog(nxt, name, argvar_expr, depth + 1)  # super()._validate_x(x)
+            continue
+        if isinstance(st, ast.If) and not st.orelse and len(st.body) == 1 and _is_descr_raise(st.body[0]):
+            out.append(("validate", argvar_expr, _cond_of(st.test, var, module)))
+            continue
+        raise TranslatorError(f"{k.__name__}.{name}: statement not understood: {ast.unparse(st)[:80]}")
+    return out
+
+
+def _init_prog(cls, binding=None, depth=0):
+    """Symbolic execution of `cls.__init__`: statements ('validate', param, cond) / ('resolve', param) / ('store', attr, [params]).
+    `binding` maps the local names of this `__init__` to the parameter names of the outermost constructor."""
+    if depth > 6:
+        raise TranslatorError("constructor chain too deep")
+    if "__init__" not in vars(cls):
+        return _init_prog(cls.__mro__[1], binding, depth + 1) if cls.__mro__[1] is not object else []
+    fn = vars(cls)["__init__"]
+    node = _func_ast(fn)
+    params = [a.arg for a in node.args.args][1:] + [a.arg for a in node.args.kwonlyargs]
+    if binding is None:
+        binding = {p: p for p in params}
+    module = sys.modules[cls.__module__]
+    prog = []
+
+    def src(n):
+        if isinstance(n, ast.Name) and n.id in binding:
+            return binding[n.id]
+        raise TranslatorError(f"{cls.__name__}.__init__: expression is not a constructor parameter: {ast.unparse(n)}")
+
+    def mentions_param(n):
+        return any(isinstance(x, ast.Name) and x.id in binding for x in ast.walk(n))
+
+    for st in node.body:
+        if isinstance(st, ast.Expr) and isinstance(st.value, ast.Constant):
+            continue
+        if isinstance(st, ast.Expr) and isinstance(st.value, ast.Call):
+            c = st.value
+            f = c.func
+            # _logger.debug(...)
+            if isinstance(f, ast.Attribute) and isinstance(f.value, ast.Name) and f.value.id == "_logger":
+                continue
+            # super().__init__(a, b, kw=c)
+            if (isinstance(f, ast.Attribute) and f.attr == "__init__" and isinstance(f.value, ast.Call)
+                    and isinstance(f.value.func, ast.Name) and f.value.func.id == "super" and not f.value.args):
+                parent = cls.__mro__[1]
+                while parent is not object and "__init__" not in vars(parent):
+                    parent = parent.__mro__[1]
+                if parent is object:
+                    continue
+                pnode = _func_ast(vars(parent)["__init__"])
+                pparams = [a.arg for a in pnode.args.args][1:]
+                nb = {}
+                for i, a in enumerate(c.args):
+                    if i >= len(pparams):
+                        raise TranslatorError(f"{cls.__name__}.__init__: too many arguments for {parent.__name__}.__init__")
+                    nb[pparams[i]] = src(a)
+                for kw in c.keywords:
+                    if kw.arg is None or kw.arg not in pparams:
+                        raise TranslatorError(f"{cls.__name__}.__init__: keyword {kw.arg} for {parent.__name__}.__init__")
+                    nb[kw.arg] = src(kw.value)
+                nb["__outer_class__"] = binding.get("__outer_class__", cls)      # `self._validate_x` dispatches on the real class
+                prog += _init_prog(parent, nb, depth + 1)
+                continue
+            # self._validate_x(p)  /  Cls._validate_x(p)
+            if isinstance(f, ast.Attribute) and isinstance(f.value, ast.Name) and len(c.args) == 1 and not c.keywords:
+                if f.value.id == "self":
+                    owner = binding.get("__outer_class__", cls)
+                elif hasattr(module, f.value.id) and isinstance(getattr(module, f.value.id), type):
+                    owner = getattr(module, f.value.id)
+                else:
+                    raise TranslatorError(f"{cls.__name__}.__init__: call not understood: {ast.unparse(st)[:80]}")
+                prog += _validator_prog(owner, f.attr, src(c.args[0]))
+                continue
+            raise TranslatorError(f"{cls.__name__}.__init__: call not understood: {ast.unparse(st)[:80]}")
+        # host = socket.gethostbyname(host) if host == "localhost" else host
+        if (isinstance(st, ast.Assign) and len(st.targets) == 1 and isinstance(st.targets[0], ast.Name)
+                and st.targets[0].id in binding and isinstance(st.value, ast.IfExp)):
+            v, e = st.targets[0].id, st.value
+            ok = (isinstance(e.test, ast.Compare) and isinstance(e.test.left, ast.Name) and e.test.left.id == v
+                  and len(e.test.ops) == 1 and isinstance(e.test.ops[0], ast.Eq)
+                  and isinstance(e.test.comparators[0], ast.Constant) and e.test.comparators[0].value == "localhost"
+                  and isinstance(e.orelse, ast.Name) and e.orelse.id == v
+                  and ast.unparse(e.body) == f"socket.gethostbyname({v})")
+            if not ok:
+                raise TranslatorError(f"{cls.__name__}.__init__: rebinding of {v} not understood")
+            prog.append(("resolve", binding[v]))
+            continue
+        # self.attr = param | self.attr = (p, q) | self.attr[: T] = <expression without parameters>
+        tgt = val = None
+        if isinstance(st, ast.Assign) and len(st.targets) == 1:
+            tgt, val = st.targets[0], st.value
+        elif isinstance(st, ast.AnnAssign) and st.value is not None:
+            tgt, val = st.target, st.value
+        if tgt is not None and isinstance(tgt, ast.Attribute) and isinstance(tgt.value, ast.Name) and tgt.value.id == "self":
+            if isinstance(val, ast.Name) and val.id in binding:
+                prog.append(("store", tgt.attr, [binding[val.id]]))
+            elif isinstance(val, ast.Tuple) and val.elts and all(isinstance(e, ast.Name) and e.id in binding for e in val.elts):
+                prog.append(("store", tgt.attr, [binding[e.id] for e in val.elts]))
+            elif not mentions_param(val):
+                pass                                                   # internal state (_is_open, buffers, handles)
+            else:
+                raise TranslatorError(f"{cls.__name__}.__init__: stored expression not understood: {ast.unparse(st)[:80]}")
+            continue
+        raise TranslatorError(f"{cls.__name__}.__init__: statement not understood: {ast.unparse(st)[:80]}")
+    return prog
+
+
 def _ctor_of(cls) -> dict:
-    kind = None
-    names = [c.__name__ for c in cls.__mro__]
-    for base, k in _KIND_BY_BASE:
-        if base in names:
-            kind = k
-            break
-    if kind is None:
-        raise TranslatorError(f"create_transport builds {cls.__name__}, whose __init__ body is not modelled")
     args = []
     for p in list(inspect.signature(cls.__init__).parameters.values())[1:]:
         if p.kind not in (p.POSITIONAL_OR_KEYWORD, p.KEYWORD_ONLY):
             raise TranslatorError(f"{cls.__name__}.__init__: parameter kind {p.kind} not modelled")
         args.append((p.name, None if p.default is p.empty else ("some", p.default)))
-    return {"cls": cls.__name__, "kind": kind, "args": args}
-
-
-def _is_call(node, attr):
-    return isinstance(node, ast.Call) and isinstance(node.func, ast.Attribute) and node.func.attr == attr
+    binding = {p: p for p, _ in args}
+    binding["__outer_class__"] = cls
+    prog = _init_prog(cls, binding)
+    return {"cls": cls.__name__, "args": args, "prog": prog}
 
 
 def read_tables() -> dict:
@@ -304,7 +521,8 @@ def check_python_assumptions() -> None:
 def render_gen(t: dict) -> str:
     out = ["import QmiModel.Model.Descriptor",
            "/-! GENERATED on every run by harness/props/c14.py (`translate`) from the live",
-           "`TransportDescriptorParser` instances, the constructor signatures and the AST of `create_transport`.",
+           "`TransportDescriptorParser` instances, the constructor signatures, the AST of `create_transport` and the ASTs of the",
+           "`__init__` bodies (`super().__init__` chains and `_validate_*` helpers inlined, constants evaluated).",
            "Do not edit. -/",
            "namespace QmiModel.Gen.TransportTables",
            "open QmiModel.Descriptor", ""]
@@ -312,11 +530,31 @@ def render_gen(t: dict) -> str:
     def param(p):
         return f"⟨{lean_str(p[0])}, .{p[1]}, {'true' if p[2] else 'false'}⟩"
 
+    def cond(c):
+        k = c[0]
+        if k in ("lt", "gt", "eq"):
+            return f".{k} ({c[1]})"
+        if k == "or":
+            return f".or ({cond(c[1])}) ({cond(c[2])})"
+        if k == "notInStrs":
+            return f".notInStrs [{', '.join(lean_str(x) for x in c[1])}]"
+        if k == "notDevice":
+            return f".notDevice {lean_str(c[1])} {lean_str(c[2])}"
+        return "." + k
+
+    def stmt(st):
+        if st[0] == "validate":
+            return f".validate {lean_str(st[1])} ({cond(st[2])})"
+        if st[0] == "resolve":
+            return f".resolveLocalhost {lean_str(st[1])}"
+        return f".store {lean_str(st[1])} [{', '.join(lean_str(x) for x in st[2])}]"
+
     def ctor(c):
         if c is None:
             return "none"
         args = ", ".join(f"({lean_str(n)}, {'none' if d is None else 'some (' + lean_val(d[1]) + ')'})" for n, d in c["args"])
-        return f"some {{ cls := {lean_str(c['cls'])}, kind := .{c['kind']}, args := [{args}] }}"
+        prog = ",\n        ".join(stmt(x) for x in c["prog"])
+        return f"some {{ cls := {lean_str(c['cls'])}, args := [{args}], prog := [\n        {prog}] }}"
 
     for i in t["ifaces"]:
         out.append(f"/-- `{i['parser']}` and the classes `create_transport` builds from it -/")
@@ -329,7 +567,6 @@ def render_gen(t: dict) -> str:
         out.append("")
     out.append("def env : Env :=")
     out.append(f"  {{ ifaces := [{', '.join(i['name'] for i in t['ifaces'])}],")
-    out.append(f"    udpReserved := {t['udp_reserved']},")
     out.append(f"    localhostAddr := {lean_str(LOCALHOST_ADDR)} }}")
     out.append("")
     out.append("end QmiModel.Gen.TransportTables")
@@ -394,17 +631,17 @@ def canon_val(v) -> str:
     return "?:" + type(v).__name__
 
 
-_F_RE = re.compile(r"=f:([0-9,\-]+)")
+_F_RE = re.compile(r"([=(|])f:([0-9,\-]+)")
 
 
 def canon_model_line(line: str) -> str:
     """floats: the model carries the literal; compare through Python's own float()"""
     def sub(m):
         try:
-            return "=F:" + float(dec(m.group(1))).hex()
+            return m.group(1) + "F:" + float(dec(m.group(2))).hex()
         except Exception:
             return m.group(0)
-    return _F_RE.sub(sub, line) if "=f:" in line else line
+    return _F_RE.sub(sub, line) if "f:" in line else line
 
 
 _ATTR = {
@@ -446,12 +683,40 @@ def attr_of(t, kind: str, name: str):
         return _MISSING
 
 
+_TABLES = None
+
+
+def tables_cached() -> dict:
+    global _TABLES
+    if _TABLES is None:
+        _TABLES = read_tables()
+    return _TABLES
+
+
+def stores_of(cls_name: str):
+    for i in tables_cached()["ifaces"]:
+        for c in (i["linux"], i["win"]):
+            if c is not None and c["cls"] == cls_name:
+                return [(st[1], st[2]) for st in c["prog"] if st[0] == "store"]
+    return None
+
+
 def canon_transport(t) -> str:
-    kind = kind_of(t)
+    """class + the attributes the constructor assigns from its parameters (names taken from the translated `__init__`)"""
+    stores = stores_of(type(t).__name__)
+    if stores is None:
+        return f"ok {type(t).__name__} ?unknown-class"
     items = []
-    for p in ctor_params(type(t)):
-        v = attr_of(t, kind, p.name)
-        items.append(f"{p.name}=" + ("?missing" if v is _MISSING else canon_val(v)))
+    for attr, ps in stores:
+        v = getattr(t, attr, _MISSING)
+        if v is _MISSING:
+            items.append(f"{attr}=?missing")
+        elif len(ps) == 1:
+            items.append(f"{attr}=" + canon_val(v))
+        elif isinstance(v, tuple) and len(v) == len(ps):
+            items.append(f"{attr}=(" + "|".join(canon_val(x) for x in v) + ")")
+        else:
+            items.append(f"{attr}=?shape")
     return f"ok {type(t).__name__}" + ("".join(" " + i for i in items))
 
 
@@ -1313,8 +1578,9 @@ class C14(Prop):
     ]
 
     def translate(self, ctx: Ctx) -> list:
+        global _TABLES
         check_python_assumptions()
-        t = read_tables()
+        t = _TABLES = read_tables()
         core.write_if_changed(GEN, render_gen(t))
         return [GEN]
 
@@ -1378,7 +1644,7 @@ class C14(Prop):
                           "by (string, defaults, platform). Call histories (2-4 calls handed ONE defaults object, as dict or as read-only "
                           "Mapping), primitive streams (parts/int/float/host/ip/fmtres) and round-trip cases "
                           "are counted separately in input_distribution.")
-        tables = read_tables()
+        tables = tables_cached()
         names = [i["name"] for i in tables["ifaces"]]
         seen: dict = {}
 
